@@ -7,6 +7,7 @@ import TinsModel.Wire.Transport.Theorems
 import TinsModel.Wire.App.Theorems
 import TinsModel.Wire.Wifi.Theorems
 import TinsModel.Wire.Chain.Examples
+import TinsModel.Wire.Chain.FixExamples
 /-
   Property C03 — re-serializing a parsed packet preserves it.  Generic codec facts here; the per-class
   `*_reparse` theorems live in TinsModel/Wire/<Family>/Theorems.lean.
@@ -58,13 +59,69 @@ theorem l2_whole_packet_c03 (cls : String) (b : Bytes) (os : List Wire.AnyObj)
     ARP's RawPDU; through IP / IPv6 / EAPOL: none).  IP fragments (payload kept as a RawPDU) are covered.  Nothing of the App
     family is excluded (a parser never produces the DHCP options of KF-WApp-6).  Proved by induction over the stack from the
     per-class `*_reparse` theorems (RadioTap: `radiotap_reparse`, proved here), the generated next-protocol tables, and the
-    per-class `*_parse_linkA` / `*_parse_facts` lemmas (`Wire/Chain/*.lean`). -/
+    per-class `*_parse_linkA` / `*_parse_facts` lemmas (`Wire/Chain/*.lean`).  The second clause of the property (the
+    second-serialization fixed point) is `whole_packet_c03_fixpoint` below, over the same seven families. -/
 theorem whole_packet_c03 (cls : String) (b : Bytes) (os : List Wire.AnyObj) (hb : b.length < 4294967296)
     (hparse : Wire.parseChain (b.length + 2) cls b = .ok os) (hres : Wire.ChainAll.ResidualAll os)
     (henv : ∀ o t, os = .ip o :: t → Wire.Ip.envDependentTop o = false) :
     ∃ out, Wire.serializeObjs os = .ok out ∧
       ∃ os', Wire.parseChain (out.length + 2) cls out = .ok os' ∧ Wire.ChainAll.ViewEqAll (Wire.ChainAll.padAll os) os os' :=
   Wire.ChainAll.c03_all cls b os hb hparse hres henv
+
+/-- **whole_packet_c03_fixpoint** — the second clause of C03 ("serializing that second packet reproduces the first
+    serialization byte for byte whenever the innermost payload is non-empty"), for whole packets of any depth that mix ALL
+    seven families — the coverage of `whole_packet_c03`: link layer (EthernetII, 802.3, LLC, SNAP, 802.1Q, MPLS, PPPoE, SLL,
+    Loopback), IP (+options), IPSecAH, IPSecESP, IPv6 (+extension headers), UDP, TCP (+options), ICMP, ICMPv6, ARP, STP,
+    VXLAN, RTP, BootP, DHCP, DHCPv6, RadioTap, the 21 Dot11 classes, RC4EAPOL / RSNEAPOL, over a final RawPDU; every entry
+    point incl. the factories `Dot11*`, `EAPOL`, `EAPOL*`; the same hypotheses (`ResidualAll`: no PPI / PKTAP, lengths that fit
+    their 16-bit fields, no ICMP / ICMPv6 extension structure or ghost quote — KF-C03-Icmp-3/4 —, no top-level IP with source
+    0.0.0.0).  If libtins accepts `b` as the stack `os` with a non-empty innermost payload, then with `y = serialize(os)`:
+    `E(y)` succeeds and `serialize(E(y)) = y`.  Derived fields are recomputed from the same inputs: lengths (IP total length,
+    IPv6 payload length, UDP length, TCP data offset, Dot3 / PPPoE / EAPOL / RadioTap lengths, AH length, RFC 4884 length
+    octets, MLDv2 record count), next-protocol tags (the stored tag of a re-parsed object is the one the first serialization
+    derived), checksums over header / pseudo header of the re-parsed parent / payload, IP / TCP option and IPv6 extension header
+    padding, the RadioTap FCS (CRC-32 of the same inner frame).  Minimum-frame padding: what reached the payload in the first
+    round trip is payload in the second (EthernetII / ARP); what an IP / IPv6 / PPPoE / EAPOL length cut off is re-created.
+    Proved by induction over the stack, inner chain first (`Wire/Chain/Fix*.lean`: `fix_all` is the one-layer step over every
+    class, `chain_fix_aux_all` the induction).  Nothing is excluded for parsed packets beyond `ResidualAll`: the one object
+    state that is not on the wire — `Dot1Q::append_padding_`, KF-C04-L2-4 — is never set by a parsing constructor
+    (`parse_noApp_all`); for API-built stacks see `built_packet_c03_fixpoint`. -/
+theorem whole_packet_c03_fixpoint (cls : String) (b : Bytes) (os : List Wire.AnyObj) (hb : b.length < 4294967296)
+    (hparse : Wire.parseChain (b.length + 2) cls b = .ok os) (hres : Wire.ChainAll.ResidualAll os)
+    (henv : ∀ o t, os = .ip o :: t → Wire.Ip.envDependentTop o = false)
+    (hpay : (Wire.L2.splitRaw os).2 ≠ []) :
+    ∃ y, Wire.serializeObjs os = .ok y ∧
+      ∃ q, Wire.parseChain (y.length + 2) cls y = .ok q ∧ Wire.serializeObjs q = .ok y :=
+  Wire.ChainAll.c03_fixpoint_all cls b os hb hparse hres henv hpay
+
+/-- **whole_packet_c03_full** — both clauses of C03 in one statement, over all seven families: the re-parse `q` of
+    `y = serialize(p)` has the same classes and views as `p` (payload followed by at most `padAll p` zero bytes), and — payload
+    non-empty — `serialize(q) = y`. -/
+theorem whole_packet_c03_full (cls : String) (b : Bytes) (os : List Wire.AnyObj) (hb : b.length < 4294967296)
+    (hparse : Wire.parseChain (b.length + 2) cls b = .ok os) (hres : Wire.ChainAll.ResidualAll os)
+    (henv : ∀ o t, os = .ip o :: t → Wire.Ip.envDependentTop o = false) :
+    ∃ y, Wire.serializeObjs os = .ok y ∧
+      ∃ q, Wire.parseChain (y.length + 2) cls y = .ok q ∧ Wire.ChainAll.ViewEqAll (Wire.ChainAll.padAll os) os q ∧
+        ((Wire.L2.splitRaw os).2 ≠ [] → Wire.serializeObjs q = .ok y) :=
+  Wire.ChainAll.c03_all_with_fixpoint cls b os hb hparse hres henv
+
+/-- **built_packet_c03_fixpoint** — the fixed point for stacks that did not come out of a parser (API-built, representable:
+    `StackableAll`), under any entry name of the outermost class.  The full statement over *every* representable stack is
+    `Wire.ChainAll.chain_reserialize_fixpoint_all`; it is refuted (`c03_fixpoint_all_stacks_fails`) on the witness
+    `Dot1Q(5, append_pad = true) / PPPoE session / RawPDU`: `Dot1Q::append_padding_` is object state that is not on the wire
+    (known finding KF-C04-L2-4, replayed on the real classes).  The excluded region is explicit and decidable — `PadKeptAll`
+    is its complement: wherever a Dot1Q pads on behalf of `append_padding_`, no layer between it and the payload cuts the
+    padding off (`passes`: no PPPoE / IP / IPv6 / EAPOL-by-factory / RadioTap / RTP / STP length or leaf below it) — and this
+    theorem is the proved part: everything outside it. -/
+theorem built_packet_c03_fixpoint (n : String) (o : Wire.AnyObj) (os : List Wire.AnyObj) (hn : Wire.ChainAll.EntryName n o)
+    (hs : Wire.ChainAll.StackableAll (o :: os)) (hk : Wire.ChainAll.PadKeptAll (o :: os))
+    (hpay : (Wire.L2.splitRaw (o :: os)).2 ≠ []) (y : Bytes) (hser : Wire.serializeObjs (o :: os) = .ok y) :
+    ∃ q, Wire.parseChain (y.length + 2) n y = .ok q ∧ Wire.serializeObjs q = .ok y :=
+  Wire.ChainAll.chain_fixpoint_named n o os hn hs hk hpay y hser
+
+/-- the full statement over every representable stack does not hold (KF-C04-L2-4) -/
+theorem c03_fixpoint_all_stacks_fails : ¬ Wire.ChainAll.chain_reserialize_fixpoint_all :=
+  Wire.ChainAll.chain_reserialize_fixpoint_all_fails
 
 /-- **whole_packet_c03_net** — … and when the stack goes through IP or IPv6 the payload comes back byte for byte: the
     minimum-frame padding EthernetII / Dot1Q append is cut off again by the IP total length / IPv6 payload length
